@@ -35,7 +35,7 @@ type Profile struct {
 
 var AllEdits = []string{"edit-content", "edit-content", "shift-boundary", "swap-contents", "add-file", "remove-file", "rename-file", "toggle-file", "toggle-file", "bump-nonce",
 	"edit-fingerprint", "rename-output", "add-edge", "add-edge-alias", "remove-edge", "reroute-alias", "retarget-alias", "toggle-execbit", "swap-output-roles"}
-var AllPerturbs = []string{"perturb-clean", "perturb-delete", "perturb-delete-parent", "perturb-truncate", "perturb-overwrite", "perturb-chmod", "perturb-stale-entry", "perturb-file-for-dir"}
+var AllPerturbs = []string{"perturb-clean", "perturb-delete", "perturb-delete-parent", "perturb-truncate", "perturb-overwrite", "perturb-chmod", "perturb-stale-entry", "perturb-file-for-dir", "perturb-dir-for-file", "perturb-symlink"}
 
 var pkgPool = []string{"", "a", "a/b", "ab", "c/d"}
 
